@@ -409,6 +409,7 @@ func (g *Gen) mapHeaps(env *Env, mt *types.Map) (dom, ln string, vals []string, 
 	ln = g.envHeapGet(env, h, base+"#len", "(Array Int "+g.idxSort()+")")
 	valLeaves = g.leaves(mt.Elem())
 	for _, l := range valLeaves {
+		g.noteLeafKey(base+"#val"+l.Path, l, ks)
 		vals = append(vals, g.envHeapGet(env, h, base+"#val"+l.Path, "(Array Int (Array "+ks+" "+l.Sort+"))"))
 	}
 	return
@@ -751,6 +752,10 @@ func (g *Gen) evalCall(x *ECall, env *Env) Val {
 		return g.eval(x.Args[0], &n)
 	case "cur":
 		id, ok := x.Args[0].(*EIdent)
+		if er, isRes := x.Args[0].(*EResult); isRes && er.N < 0 {
+			// a local variable that happens to be called `result`
+			id, ok = &EIdent{Name: "result"}, true
+		}
 		if !ok || env.resolve == nil {
 			panic(contractErr("cur(x) needs a local variable name"))
 		}
@@ -846,7 +851,7 @@ func (g *Gen) evalCall(x *ECall, env *Env) Val {
 	case "unbox":
 		v := arg(0)
 		t := g.resolveType(env, x.Args[1].String())
-		return g.unbox(v.S, t)
+		return g.unboxIn(env, v.S, t)
 	case "min", "max":
 		a, b := g.unify(arg(0), arg(1))
 		if a.K == kUntyped {
@@ -1066,9 +1071,17 @@ func (g *Gen) boxFn(t types.Type) string {
 
 func (g *Gen) box(v Val) string {
 	if v.K != kScalar {
-		// composite boxed values are opaque
-		r := g.fresh("boxed", "Int")
-		g.assume("true", "(> "+r+" 0)")
+		// a composite value is boxed into a fresh immutable cell of the heap "box:T"
+		if v.K == kPtr || g.inQuant > 0 || g.heap == nil || g.heap.m == nil {
+			r := g.fresh("boxed", "Int")
+			g.assume("true", "(> "+r+" 0)")
+			g.assume("true", eq("(dyntype "+r+")", fmt.Sprint(g.typeTag(v.T))))
+			return r
+		}
+		r := g.newRef("box")
+		if len(g.leaves(v.T)) > 0 {
+			g.store(g.heap, Ptr{Prefix: "box:" + g.typeName(v.T), Idx: []string{r}, T: v.T}, v)
+		}
 		g.assume("true", eq("(dyntype "+r+")", fmt.Sprint(g.typeTag(v.T))))
 		return r
 	}
@@ -1088,8 +1101,23 @@ func (g *Gen) box(v Val) string {
 }
 
 func (g *Gen) unbox(iface string, t types.Type) Val {
+	return g.unboxIn(nil, iface, t)
+}
+
+// unboxIn reads a boxed composite from the box heap of the given evaluation context (nil: the current heap).
+func (g *Gen) unboxIn(env *Env, iface string, t types.Type) Val {
 	if isComposite(t) {
-		return g.freshVal("unboxed", t)
+		if len(g.leaves(t)) == 0 {
+			return Val{K: kStruct, T: t}
+		}
+		p := Ptr{Prefix: "box:" + g.typeName(t), Idx: []string{iface}, T: t}
+		if env != nil {
+			return g.envLoad(env, p)
+		}
+		if g.heap == nil || g.heap.m == nil {
+			return g.freshVal("unboxed", t)
+		}
+		return g.load(g.heap, p)
 	}
 	if _, isPtr := t.Underlying().(*types.Pointer); isPtr {
 		return sv(t, ite("(< "+iface+" 0)", "0", iface))
